@@ -324,7 +324,52 @@ class ExecCore:
                 raise OutOfSubset(f"heap key {key} unknown")
             name = "H0_" + "_".join(str(k) for k in (key if isinstance(key, tuple) else (key,)))
             heap[key] = z3.Const(name, sort)
+            ax = self.heap_array_wf(key, heap[key])
+            if ax is not None and not any(ax.eq(a) for a in self.global_axioms):
+                self.global_axioms.append(ax)
         return heap[key]
+
+    @staticmethod
+    def heap_array_wf(key, arr):
+        """Type invariant of a heap array: collection lengths are non-negative."""
+        if key in (("llen",), ("dlen",)):
+            r = z3.Const("wf_r", V.Ref)
+            return z3.ForAll([r], z3.Select(arr, r) >= 0)
+        return None
+
+    def sort_by_name(self, name: str) -> z3.SortRef:
+        basic = {"Ref": V.Ref, "Int": z3.IntSort(), "Real": z3.RealSort(), "Bool": z3.BoolSort(), V.StrS.name(): V.StrS, V.DT.name(): V.DT, "txid": z3.IntSort()}
+        if name in basic:
+            return basic[name]
+        if name == "glkey":
+            if "glkey" not in self.uf_cache:
+                d = z3.Datatype("GLKey")
+                d.declare("mk", ("ev", z3.IntSort()), ("haslot", z3.BoolSort()), ("lot", z3.IntSort()))
+                self.uf_cache["glkey"] = d.create()
+            return self.uf_cache["glkey"]
+        for q in list(self.tree.classes):
+            c = self.tree.classes[q]
+            if c.is_enum and q in V.ENUM_SORTS and V.ENUM_SORTS[q][0].name() == name:
+                return V.ENUM_SORTS[q][0]
+            if c.is_dataclass and c.dataclass_frozen and "R_" + q.replace(".", "_") == name:
+                return self.rec_sort(q)[0]
+        raise OutOfSubset(f"unknown sort name {name} in a heap key")
+
+    def heap_key_sort(self, key) -> z3.SortRef:
+        """Sort of a collection/allocation heap array from its key (so that a frame clause can name an array nobody has touched yet)."""
+        kind = key[0]
+        A = z3.ArraySort
+        if kind == "alloc":
+            return A(V.Ref, z3.BoolSort())
+        if kind in ("llen", "dlen"):
+            return A(V.Ref, z3.IntSort())
+        if kind == "lel":
+            return A(V.Ref, A(z3.IntSort(), self.sort_by_name(key[1])))
+        if kind in ("dhas", "dvaln"):
+            return A(V.Ref, A(self.sort_by_name(key[1]), z3.BoolSort()))
+        if kind == "dval":
+            return A(V.Ref, A(self.sort_by_name(key[1]), self.sort_by_name(key[2])))
+        raise OutOfSubset(f"heap key {key} unknown")
 
     def field_arr(self, heap: dict, mangled: str) -> z3.ExprRef:
         t = self.field_type(mangled)
@@ -387,11 +432,7 @@ class ExecCore:
         return k.t, V.sort_key(k.t.sort())
 
     def gl_key(self, heap: dict, g: Val):
-        if "glkey" not in self.uf_cache:
-            d = z3.Datatype("GLKey")
-            d.declare("mk", ("ev", z3.IntSort()), ("haslot", z3.BoolSort()), ("lot", z3.IntSort()))
-            self.uf_cache["glkey"] = d.create()
-        GK = self.uf_cache["glkey"]
+        GK = self.sort_by_name("glkey")
         idf = self.tree.field("AbstractTransaction.__internal_id")
         ids = self.field_arr(heap, idf)
         ev = self.read_field(heap, g, self.tree.field("GainLoss.__taxable_event"), None)
